@@ -322,8 +322,8 @@ def run(tier, seed):
     hmsgs = [msgs[i] for i in pick]
     hraw = [reals[i].rawMessage for i in pick]
     name = 'MC_Router_hist'
-    cfg = ('SPECIFICATION SpecHist\nCONSTANTS\n MaxRules = 2\n'
-           'INVARIANT FreshIds\nPROPERTY RemovedSilent\nPROPERTY Exact\nCHECK_DEADLOCK FALSE\n')
+    cfg = ('SPECIFICATION SpecHist\nCONSTANTS\n MaxRules = %d\n'
+           'INVARIANT FreshIds\nPROPERTY RemovedSilent\nPROPERTY Exact\nCHECK_DEADLOCK FALSE\n' % (3 if thorough else 2))
     res, g = tlc.dump_graph('Router', name + '.cfg', extra={'RouterData.tla': mc_module(name, hmsgs, pool), name + '.cfg': cfg},
                             timeout=900)
     chk.tlc_stats(res, 'Router history machine')
@@ -336,8 +336,8 @@ def run(tier, seed):
         d.raw = hraw
         return d
     paths = list(core.edge_cover_paths(g))
-    if not thorough and len(paths) > 3000:
-        paths = rng.sample(paths, 3000)
+    if len(paths) > (60000 if thorough else 3000):
+        paths = rng.sample(paths, 60000 if thorough else 3000)
     core.replay_paths(chk, g, paths, mk, 'hist-edges', 'c12', {})
     core.replay_paths(chk, g, list(core.random_walks(g, 3000 if thorough else 500, 10, rng)), mk, 'hist-walks', 'c12', {})
 
@@ -347,7 +347,7 @@ def run(tier, seed):
         d.raw = hraw
         return d
     sp = [p for p in paths if not any(lab[0] == 'RouteRemoving' for lab in p.labs)]
-    core.replay_paths(chk, g, sp[:1500 if not thorough else None], mk_shared, 'hist-shared-callable', 'c12', {'shared': True},
+    core.replay_paths(chk, g, sp[:1500 if not thorough else 20000], mk_shared, 'hist-shared-callable', 'c12', {'shared': True},
                       state_map=lambda st: {'ninvoked': len(st['invoked'])})
     # ---- code -> spec: random rules over a larger value space (recorded match sets judged by TLC)
     traces = []
@@ -357,7 +357,7 @@ def run(tier, seed):
             'dest': [NONE, 'D'], 'arg0': [NONES, chars('x'), chars('/aa/'), ()],
             'arg0path': [NONES, chars('/aa/'), chars('/aa/bb/'), chars('/aa/bb'), chars('/aa'), chars('/'), chars('/aa/bb/cc')]}
 
-    for _ in range(1500 if thorough else 300):
+    for _ in range(10000 if thorough else 300):
         r = {k: rng.choice(v) if rng.random() < 0.45 else v[0] for k, v in vals.items()}
         ro = router.MessageRouter()
         hits = []
